@@ -244,8 +244,10 @@ def run_case(ctx, g, rng):
     # "all converters used as validation context": the converter's own CURIE delimiter is its own business - references
     # are written with ':' (or the separator given) whatever the converter uses for its CURIEs
     d = rng.choice([":", ":", "/", "::", "|", "_"])
-    recs = gen.records(rng, d, 1, 3)
-    if rng.random() < 0.4 and not any("" in spec.all_p(r) for r in recs):
+    # (one context converter in twelve has no records at all: every prefix is unknown to it - seed C15-Q, where a
+    #  converter that acquired __len__ became falsy when empty and was taken for "no converter")
+    recs = gen.records(rng, d, 1, 3) if rng.random() < 0.92 else []
+    if recs and rng.random() < 0.4 and not any("" in spec.all_p(r) for r in recs):
         recs[0] = recs[0]._replace(psyn=recs[0].psyn + ("",)) if rng.random() < 0.5 else recs[0]._replace(prefix="", psyn=recs[0].psyn + (recs[0].prefix,))
     conv, how = gen.build(api, recs, d, rng)
     S.counters[f"wl:context-converter-delimiter:{d}"] += 1
